@@ -543,6 +543,17 @@ impl<'a> From<bool> for DataOperator<'a> {
     }
 }
 
+/// Writes a float as a STAMQL literal: plain decimal notation (no exponent, which the query parser does not read) that
+/// always has a decimal point (1.0, not 1), so it is read back as the same float
+fn float_literal(n: f64) -> String {
+    let s = format!("{}", n);
+    if s.contains('.') || !n.is_finite() {
+        s
+    } else {
+        format!("{}.0", s)
+    }
+}
+
 impl<'a> DataOperator<'a> {
     /// Turns the DataOperator to a string, compatible with STAMQL
     pub fn to_string(&self) -> Result<String, StamError> {
@@ -569,16 +580,15 @@ impl<'a> DataOperator<'a> {
                 )),
             },
             DataOperator::EqualsInt(n) => Ok(format!("= {}", n)),
-            //floats are written with {:?} so an integral value keeps its decimal point (1.0, not 1) and is read back as a float
-            DataOperator::EqualsFloat(n) => Ok(format!("= {:?}", n)),
+            DataOperator::EqualsFloat(n) => Ok(format!("= {}", float_literal(*n))),
             DataOperator::GreaterThan(n) => Ok(format!("> {}", n)),
             DataOperator::GreaterThanOrEqual(n) => Ok(format!(">= {}", n)),
             DataOperator::LessThan(n) => Ok(format!("< {}", n)),
             DataOperator::LessThanOrEqual(n) => Ok(format!("<= {}", n)),
-            DataOperator::GreaterThanFloat(n) => Ok(format!("> {:?}", n)),
-            DataOperator::GreaterThanOrEqualFloat(n) => Ok(format!(">= {:?}", n)),
-            DataOperator::LessThanOrEqualFloat(n) => Ok(format!("<= {:?}", n)),
-            DataOperator::LessThanFloat(n) => Ok(format!("< {:?}", n)),
+            DataOperator::GreaterThanFloat(n) => Ok(format!("> {}", float_literal(*n))),
+            DataOperator::GreaterThanOrEqualFloat(n) => Ok(format!(">= {}", float_literal(*n))),
+            DataOperator::LessThanOrEqualFloat(n) => Ok(format!("<= {}", float_literal(*n))),
+            DataOperator::LessThanFloat(n) => Ok(format!("< {}", float_literal(*n))),
             DataOperator::ExactDatetime(d) => Ok(format!("= {}", d.to_rfc3339())),
             DataOperator::AfterDatetime(d) => Ok(format!("> {}", d.to_rfc3339())),
             DataOperator::AtOrAfterDatetime(d) => Ok(format!(">= {}", d.to_rfc3339())),
